@@ -159,7 +159,7 @@ def item_rs(it):
          a.get("content") is not None and f'content = {rs_str(a["content"])}', a.get("untagged") and "untagged"]
     T = [a.get("export_to") is not None and f'export_to = {rs_str(a["export_to"])}', a.get("as") is not None and f'as = {rs_str(ty_rs(a["as"]))}',
          a.get("type") is not None and f'type = {rs_str(a["type"])}',
-         a.get("concrete") and "concrete(" + ", ".join(f"{c['name']} = {ty_rs(c['ty'])}" for c in a["concrete"]) + ")",
+         a.get("concrete") and not a.get("concrete_split") and "concrete(" + ", ".join(f"{c['name']} = {ty_rs(c['ty'])}" for c in a["concrete"]) + ")",
          a.get("optional_fields") == "optional" and "optional_fields", a.get("optional_fields") == "nullable" and "optional_fields = nullable"]
     if not serde_on:
         T = [x for x in S] + T
@@ -167,6 +167,9 @@ def item_rs(it):
     gens = it.get("generics", [])
     g = "<" + ", ".join(p["name"] + (f" = {ty_rs(p['default'])}" if p.get("default") else "") for p in gens) + ">" if gens else ""
     head = docs_rs(a.get("docs")) + f"#[derive({', '.join(derives)})] " + attr_list("serde", S) + attr_list("ts", T)
+    if a.get("concrete") and a.get("concrete_split"):
+        # one `#[ts(concrete(..))]` attribute per concretised parameter (the lists of several attributes accumulate)
+        head += "".join(f"#[ts(concrete({c['name']} = {ty_rs(c['ty'])}))] " for c in a["concrete"])
     if it["kind"] == "struct" and it.get("via_macro") and it["shape"] == "named":
         # field types reach the derive as `$t:ty` fragments (Type::Group); explicit `T: TS` bounds are required then
         gb = "<" + ", ".join(p["name"] + ": ts_rs::TS" + (f" = {ty_rs(p['default'])}" if p.get("default") else "") for p in gens) + ">" if gens else ""
